@@ -102,6 +102,8 @@ class FileModel:
                 c.add('checksum')
             if any(s.trailing for s in r.segments):
                 c.add('trailing-length')
+            if len({bool(s.checksum) for s in r.segments}) == 2:
+                c.add('checksum-on-some-segments-only')
             if r.lr.encrypted:
                 c.add('encrypted')
             if len(r.lr.payload) == 0:
@@ -146,6 +148,7 @@ def random_layout(rng):
         'p_close_vr': rng.choice([0.0, 0.1, 0.3, 0.6]),
         'p_pad': rng.choice([0.0, 0.2, 0.5]),
         'p_chk': rng.choice([0.0, 0.3, 0.7]),
+        'chk_per_segment': rng.random() < 0.3,
         'p_trail': rng.choice([0.0, 0.3, 0.7]),
         'p_empty_mid': rng.choice([0.0, 0.05, 0.15]),
     }
@@ -253,6 +256,9 @@ def write_file(rng, lrs, layout=None, sul=None, cuts=None, opts=None):
         first = True
         plan = list(cuts[ri]) if cuts and ri in cuts else None
         while True:
+            if lay.get('chk_per_segment') and 'chk' not in ropt and not lr.encrypted:
+                # the checksum is a per-segment option (RP66V1 2.2.2.1): segments of one record may differ in it
+                chk = rng.random() < max(lay['p_chk'], 0.4)
             room = vr_cap - 4 - len(vr)
             over = seg_overhead(chk, trail)
             remaining = len(payload) - ofs
